@@ -109,6 +109,7 @@ type vwNodeCfg struct {
 	// its first round must not outlive the key installation)
 	gossipFirst bool
 	depth       int // HandoffQueueDepth (0: effectively unbounded)
+	secret      bool // the first key is given as Config.SecretKey instead of a keyring
 	name     string
 	label    string
 	skip     bool
@@ -138,6 +139,8 @@ func vwNode(c vwNodeCfg) (*Memberlist, *vwTap, *vwUser) {
 			kr, _ := NewKeyring(nil, nil)
 			conf.Keyring = kr
 			lateKeys = ks
+		} else if c.secret {
+			conf.SecretKey = ks[0]
 		} else {
 			kr, err := NewKeyring(ks, ks[0])
 			if err != nil {
@@ -568,7 +571,24 @@ func vwCryptoFailure(r *vfRng, st *vfStats) vfCase {
 	msg, _ := vwMsg(r)
 	stap.take()
 	var sendErr error
-	if r.chance(50) {
+	if r.chance(30) {
+		// a node configured with SecretKey whose keyring is rotated afterwards: packets are sealed under the CURRENT
+		// primary key
+		old := s.keys[0]
+		nw := 1 + (old % 3)
+		s.secret = true
+		sm, stap, _ = vwNode(s)
+		kr := sm.config.Keyring
+		if kr.AddKey(vwKeys[nw]) != nil || kr.UseKey(vwKeys[nw]) != nil {
+			panic("rotation failed")
+		}
+		if r.chance(50) {
+			kr.RemoveKey(vwKeys[old])
+		}
+		s.keys = []int{nw}
+		stap.take()
+		sendErr = sm.rawSendMsgPacket(Address{Addr: "10.0.0.1:7946", Name: "x"}, nil, msg)
+	} else if r.chance(50) {
 		saved := crand.Reader
 		crand.Reader = vwFailReader{}
 		sendErr = sm.rawSendMsgPacket(Address{Addr: "10.0.0.1:7946", Name: "x"}, nil, msg)
